@@ -122,14 +122,14 @@ Definition vm_ev (e : event) : vev :=
 Inductive vres :=
 | VErr (e : err)
 | VOk (mt at_ : str) (ann : list kv) (k : mkind) (cfg : option desc) (layers : option (list desc))
-      (subj : option desc) (mat : str) (mann : list kv) (bytes : str).
+      (subj : option desc) (mat : str) (mann : list kv) (bytes : str) (size : Z).
 Definition vm_view (p : state * result) : vres * list vev :=
   (match snd p with
    | Err e => VErr e
    | Ok d m0 => let m := san_manifest m0 in
                VOk (d_mt d) (d_at d) (vm_sort (d_ann d)) (m_kind m) (option_map vm_desc (m_config m))
                    (option_map (map vm_desc) (m_layers m)) (option_map vm_desc (m_subject m)) (m_at m)
-                   (vm_sort (m_ann m)) (json_manifest m0)
+                   (vm_sort (m_ann m)) (json_manifest m0) (d_sz d)
    end, map vm_ev (s_events (fst p))).
 Definition vm_marshal : manifest -> str := json_manifest.
 Definition vm_h (s : str) : str := if str_eqb s empty_json then empty_json_digest else [63].
@@ -171,9 +171,9 @@ def _vm_goal(case, out):
         return "vm_view %s = (VErr %s, %s)" % (call, e, _vm_events(o[3]))
     mt, at, ann = o[1].split(":")
     f = dict(t.split("=", 1) for t in o[2:8])
-    res = "(VOk %s %s %s %s %s %s %s %s %s %s)" % (_vm_str(mt), _vm_str(at), _vm_ann(ann), {"I": "KImage", "A": "KArtifact"}[f["kind"]],
+    res = "(VOk %s %s %s %s %s %s %s %s %s %s (%s)%%Z)" % (_vm_str(mt), _vm_str(at), _vm_ann(ann), {"I": "KImage", "A": "KArtifact"}[f["kind"]],
                                              _vm_odesc(f["cfg"]), _vm_list(f["layers"]), _vm_odesc(f["subj"]), _vm_str(f["at"]),
-                                             _vm_ann(f["ann"]), _vm_str(o[11]))
+                                             _vm_ann(f["ann"]), _vm_str(o[13]), o[11])
     return "vm_view %s = (%s, %s)" % (call, res, _vm_events(o[9]))
 
 
